@@ -21,6 +21,8 @@ class C04Spec(ModelSpec):
                 ("dii", "B", "badsize"), ("dii", "B", "badck"), ("dii", "A", "badck:sha224+size"),
                 ("store", "p", "A", "badck:sha256"), ("store", "q", "A", "badsize"), ("store", "q", "A", "badck:sha3_256"),
                 ("store_nopid", "A"),
+                # the same digest spelled in upper case is a different cid string: it must not alias the object
+                ("tag", "r", "A^"), ("dii", "A^", "badsize"),
                 ("store_meta", "p", None, "v1"), ("delete_meta", "p", None), ("delete_meta", "p", "c")]
         self.ops = ops
         self.formats = ("c",)
